@@ -194,7 +194,7 @@ func checkC15(c *Ctx) {
 	r := c.RNG
 	res := c.Res
 	res.Rule = "eight streams: (1) integers of every width as canonical text and as Go literals (bases 2/8/10/16, prefixes, separators, signs) at and around every range boundary through parse.String; " +
-		"(2) integer slices (sizes 0-40) through the flag helpers' String()/Set() incl. blank-padded and prefixed elements; (3) string slices, sets, string maps and string-to-string-slice maps (sizes 0-40; strings with commas, colons, quotes, backslashes, control and non-ASCII characters) " +
+		"(2) integer slices (sizes 0-40) through the flag helpers' String()/Set() incl. blank-padded and prefixed elements, 12% of the narrow-width slices with one blank-padded element outside the element type's range (must be an error); (3) string slices, sets, string maps and string-to-string-slice maps (sizes 0-40; strings with commas, colons, quotes, backslashes, control and non-ASCII characters, 15% invalid UTF-8 or non-printable non-ASCII without anything else that needs escaping) " +
 		"through the flag helpers, the real scanner's token stream fed to the Lean state machines; (4) floats incl. extremes/denormals/infinities, complex, bool, duration, strings (oracle only); (5) arbitrary text into the collection parsers (token stream vs state machines); " +
 		"(6) []S and map[K]V over every scalar kind (bool, string, ten integer kinds, float32/64, complex64/128; values incl. the extremes) through parse.String, with one out-of-range element in 15% (oracle only); (7) complex64/128 through parse.Complex*, parse.String and the flag helpers' Complex*Var.Set, canonical and out-of-range (oracle only). " +
 		"(8) result ownership: parse a collection text (40% the empty text), write into the result, parse the same text again: the second result must be what the first was (oracle only). " +
@@ -327,10 +327,32 @@ func checkC15(c *Ctx) {
 		} else if r.Chance(8) {
 			text = []string{",", "1,", ",1", "1,,2", "1;2", "300", "-129", "70000", "1 2"}[r.Intn(9)]
 		}
+		padOOR := false
+		if bits := map[string]int{"i8": 8, "u16": 16, "u8": 8, "i32": 32}[kname]; bits > 0 && size > 0 && r.Chance(12) {
+			// one element outside the element type's range (but inside 64 bits), blank-padded like the lenient ones
+			k := intKind{signed: kname[0] == 'i', bits: bits}
+			lo, hi := k.rng()
+			v := new(big.Int).Add(hi, big.NewInt(int64(1+r.Intn(300))))
+			if k.signed && r.Bool() {
+				v = new(big.Int).Sub(lo, big.NewInt(int64(1+r.Intn(300))))
+			}
+			lit := v.Text(10)
+			if r.Chance(30) && v.Sign() > 0 {
+				lit = "0x" + v.Text(16)
+			}
+			parts := strings.Split(printed, ",")
+			parts[r.Intn(len(parts))] = []string{" ", "  ", "\t", ""}[r.Intn(4)] + lit + []string{"", " ", "\t"}[r.Intn(3)]
+			text = strings.Join(parts, ",")
+			padOOR = true
+			res.Count("intslice/padded out-of-range element")
+		}
 		got, _ := parseBack(text)
 		impl := "err"
 		if got != "err" {
 			impl = "ok " + got
+		}
+		if padOOR && impl != "err" {
+			res.Add(Finding{Kind: "violation", What: "an element outside the element type's range was accepted (wrapped or truncated), blank padding included", Case: map[string]any{"stream": "intslice", "kind": kname, "text": text}, Expected: "err", Observed: impl})
 		}
 		model := c.Drv.Ask("ps intslice " + kname + " " + hexEnc(text))
 		wantVals := joinInts(vals)
@@ -342,7 +364,7 @@ func checkC15(c *Ctx) {
 		if impl != model {
 			res.Add(Finding{Kind: "disagreement", What: "integer slice parse: model != implementation", Case: cs, Observed: impl, Model: model})
 		}
-		if text == printed || lenient {
+		if (text == printed || lenient) && !padOOR {
 			want := "ok " + wantVals
 			if impl != want {
 				res.Add(Finding{Kind: "violation", What: "integer slice does not parse back from its printed form", Case: cs, Expected: want, Observed: impl})
@@ -411,6 +433,19 @@ func checkC15(c *Ctx) {
 			sort.SliceStable(parts, func(i, j int) bool { return strings.SplitN(parts[i], "=", 2)[0] < strings.SplitN(parts[j], "=", 2)[0] })
 		}
 		return "ok " + strings.Join(parts, ",")
+	}
+	// strings for stream 3: 15% are not valid UTF-8, or hold non-printable non-ASCII characters, and nothing else that
+	// needs escaping (no control character, quote or backslash): Go quoting writes them as \xNN / \uNNNN
+	genStr := func(r *RNG) string {
+		if !r.Chance(15) {
+			return genStr(r)
+		}
+		res.Count("coll/string with invalid UTF-8 or non-printable non-ASCII")
+		base := []string{"caf\xe9", "\xff", "\x80tail", "head\xe2\x82", "zero\u200bwidth", "a\u00a0b", "\ufeffbom", "line\u2028sep", "\xc0\xaf", "k\xfe", "Zo\xeb", "\xed\xa0\x80"}[r.Intn(12)]
+		if r.Chance(40) {
+			base += []string{"a", "z9", "-x", "é"}[r.Intn(4)]
+		}
+		return base
 	}
 	for i := 0; i < n3; i++ {
 		what := []string{"slice", "set", "map", "mmap"}[r.Intn(4)]
